@@ -76,7 +76,7 @@ def answer (P : Project) (predict : Bool) (f off : Nat) (n : Name) : String :=
         let wrong := (target P o).map (·.id) != bindingId P o
         let b (x : Bool) : String := if x then "1" else "0"
         let ts := typeShadowed P != typeShadowed (applyRename P d n)
-        s!"p {head} poudup={b (pouDup P d n)} instclash={b (instClash P d n)} xfiledup={b (xfileDup P d n)} skippedconflict={b (skippedConflict P o.file d n)} tshadow={b ts} fnshadow={b (fnShadow P || fnShadow (applyRename P d n))} dynscope={b (dynScope P || dynScope (applyRename P d n))} rangealias={b (rangeAlias P || rangeAlias (applyRename P d n))} fieldx={b (fieldX P d n)} blindrefs={blindRefs P d} wrongtarget={b wrong} uniform={b (uniform P d)} same={b (eqv d.name n)} exact={b (d.name == n)} noclash={b (noClash P d n)} noblind={b (noBlind P d)} kind={reprStr d.kind}"
+        s!"p {head} poudup={b (pouDup P d n)} instclash={b (instClash P d n)} xfiledup={b (xfileDup P d n)} skippedconflict={b (skippedConflict P o.file d n)} tshadow={b ts} fnshadow={b (fnShadow P || fnShadow (applyRename P d n))} dynscope={b (dynScope P || dynScope (applyRename P d n))} rangealias={b (rangeAlias P || rangeAlias (applyRename P d n))} valias={b (varAlias P != varAlias (applyRename P d n))} fieldx={b (fieldX P d n)} blindrefs={blindRefs P d} wrongtarget={b wrong} uniform={b (uniform P d)} same={b (eqv d.name n)} exact={b (d.name == n)} noclash={b (noClash P d n)} noblind={b (noBlind P d)} kind={reprStr d.kind}"
 
 def step (predict : Bool) (st : St) (line : String) : St × Option String :=
   match words line with
